@@ -221,7 +221,7 @@ impl RenderContext {
         let tf = match &self.image_header.metadata.colour_encoding {
             ColourEncoding::Enum(e) => e.tf,
             ColourEncoding::IccProfile(_) => {
-                let icc = self.embedded_icc().unwrap();
+                let icc = self.embedded_icc()?;
                 jxl_color::icc::icc_tf(icc)?
             }
         };
